@@ -147,7 +147,7 @@ func checkC01(p *Prog, r *Report) {
 				has["integrity"] = len(c.Args) == 1 && p.IsField(c.Args[0], "Agent.remotePwd")
 			case "ice.Agent.sendBindingRequest":
 				if len(c.Args) == 3 {
-					has["send"] = p.IsField(c.Args[1], "CandidatePair.Local") && p.IsField(c.Args[2], "CandidatePair.Remote")
+					has["send"] = p.IsField(p.Deref(f, c.Args[1]), "CandidatePair.Local") && p.IsField(p.Deref(f, c.Args[2]), "CandidatePair.Remote")
 					if cc, _, ok := p.ResolveCall(f, c.Args[0]); ok && p.CalleeName(cc) == "stun.Build" {
 						has["built"] = true
 					}
